@@ -3,7 +3,8 @@
 
      NmmcResult._post_init / _add_first_traj            nnew, first_trace
      _reduce_expect (weight * np.array(trace))          nsum_reduce
-     _add_trace (cache dropped, four trace sums, runs_trace)   inside nadd / nadd_det
+     _add_trace (cache dropped, four trace sums, runs_trace of the
+       sampled trajectories only - repair 8bf0b8f)            inside nadd / nadd_det
      _compute_avg_trace, average_trace, std_trace, trace       ncompute, nread_trace, ntrace
      merge (base merge + trace sums + eager _compute_avg_trace) nmerge_obj, nstep
      _create_e_data (inherited)                          naverage, nvariance
@@ -94,8 +95,9 @@ Definition nadd_det (o : nobj) (t : ntraj) (w : Qc) : nobj :=
      q_tr := Some {| t1d := vadd (t1d x) (vscale w (n_tr t)); t1r := t1r x;
                      t2d := vadd (t2d x) (vscale w (vsq (n_tr t))); t2r := t2r x |};
      q_wrel := q_wrel o; q_wdet := q_wdet o ++ [w];
-     (* _add_trace appends the trace of deterministic trajectories too *)
-     q_runs_trace := if q_keep o then q_runs_trace o ++ [n_tr t] else q_runs_trace o;
+     (* _add_trace (since 8bf0b8f): `if keep_runs_results and abs is None`, so
+        runs_trace lists the sampled trajectories only *)
+     q_runs_trace := q_runs_trace o;
      q_cache := None;
      q_grel := q_grel o; q_gdet := q_gdet o ++ [t] |}.
 
@@ -215,6 +217,15 @@ Fixpoint nrun_log (W : list nobj) (ops : list nop) : list nobj * list outcome :=
   | o :: ops' => let (W1, r) := nstep W o in
                  let (W2, rs) := nrun_log W1 ops' in (W2, r :: rs)
   end.
+
+(* former rule (before 8bf0b8f), documentation only: _add_trace appended the
+   trace of deterministic trajectories to runs_trace too *)
+Definition old_nadd_det (o : nobj) (t : ntraj) (w : Qc) : nobj :=
+  let o' := nadd_det o t w in
+  {| q_keep := q_keep o'; q_ntrajs := q_ntrajs o'; q_num := q_num o'; q_rel := q_rel o';
+     q_det := q_det o'; q_tr := q_tr o'; q_wrel := q_wrel o'; q_wdet := q_wdet o';
+     q_runs_trace := if q_keep o then q_runs_trace o ++ [n_tr t] else q_runs_trace o;
+     q_cache := q_cache o'; q_grel := q_grel o'; q_gdet := q_gdet o' |}.
 
 (* trace-weighted states: the trajectory NmmcResult effectively reduces *)
 Definition nm_scale (trs : vec) (trlast : Qc) (t : straj) : straj :=
